@@ -18,7 +18,11 @@ var collLong = vkit.NewCollector("C16", "TestLongChains", "a chain n0->n1->...->
 
 func TestLongChains(t *testing.T) { vkit.Check(t, collLong, GenLong, RunLong) }
 
+var collProg = vkit.NewCollector("C16", "TestRacingPrograms", "2-3 goroutines each run 1-3 operations (RegisterUpcastFunc, ClearUpcasts, ClearUpcastsForType; at most 6 in all) over 2-4 names against one bus after a sequential setup of 0-3 registrations and a fan-out of 0/40/300 further upcasters from the first name (barrier start, 40 rounds on fresh buses, race detector, drawn GOMAXPROCS). Oracle: linearizability against the sequential rule - all interleavings of the programs are enumerated in the model; the answers the registrations got must be those of some interleaving, and registering every ordered pair of names afterwards (on the real bus, sequentially) must be answered as on the graph that one of those interleavings leaves. Non-trivial = registrations race with clears.")
+
 func TestMain(m *testing.M) { vkit.Main(m) }
+
+func TestRacingPrograms(t *testing.T) { vkit.Check(t, collProg, GenProg, RunProg) }
 
 func TestSequences(t *testing.T)          { vkit.Check(t, collSeq, Gen, Run) }
 func TestReplayWhileWriting(t *testing.T) { vkit.Check(t, collDuring, GenDuring, RunDuring) }
@@ -62,5 +66,5 @@ func TestEnumSmall(t *testing.T) {
 
 func TestReplay(t *testing.T) {
 	r := vkit.NeedReplay(t)
-	_ = vkit.ReplayCase(t, r, collSeq, Run) || vkit.ReplayCase(t, r, collEnum, Run) || vkit.ReplayCase(t, r, collPair, RunPair) || vkit.ReplayCase(t, r, collDuring, RunDuring) || vkit.ReplayCase(t, r, collLong, RunLong)
+	_ = vkit.ReplayCase(t, r, collSeq, Run) || vkit.ReplayCase(t, r, collEnum, Run) || vkit.ReplayCase(t, r, collPair, RunPair) || vkit.ReplayCase(t, r, collProg, RunProg) || vkit.ReplayCase(t, r, collDuring, RunDuring) || vkit.ReplayCase(t, r, collLong, RunLong)
 }
